@@ -246,13 +246,37 @@ func (lsys *LinkSystem) Store(lnkCtx LinkContext, lp datamodel.LinkPrototype, n 
 	if err != nil {
 		return nil, err
 	}
-	tee := io.MultiWriter(writer, hasher)
+	tee := &writeErrorLatch{w: io.MultiWriter(writer, hasher)}
 	err = encoder(n, tee)
+	if err == nil {
+		// Not every encoder reports a failed write (the JSON encoders do not):
+		// never commit a block the storage writer did not accept in full.
+		err = tee.err
+	}
 	if err != nil {
 		return nil, err
 	}
 	lnk := lp.BuildLink(hasher.Sum(nil))
 	return lnk, commitFn(lnk)
+}
+
+// writeErrorLatch remembers the first error (or short write) of the writer it wraps
+// and refuses all further writes.
+type writeErrorLatch struct {
+	w   io.Writer
+	err error
+}
+
+func (l *writeErrorLatch) Write(p []byte) (int, error) {
+	if l.err != nil {
+		return 0, l.err
+	}
+	n, err := l.w.Write(p)
+	if err == nil && n < len(p) {
+		err = io.ErrShortWrite
+	}
+	l.err = err
+	return n, err
 }
 
 func (lsys *LinkSystem) MustStore(lnkCtx LinkContext, lp datamodel.LinkPrototype, n datamodel.Node) datamodel.Link {
